@@ -17,6 +17,7 @@ coq/Bridge/Auth.v instantiates with the DES model.
                FelicaLiteS.write_with_mac   gen_wmac_flip, gen_wmac_wcnt(_block), gen_wmac_plain, gen_wmac_maca,
                                             gen_wmac_payload, gen_wmac_maca_block
                FelicaLite._protect          gen_protect_key, gen_protect_ck_block(no)
+               FelicaLiteS._protect         gen_lites_protect_key, gen_lites_protect_ck_block(no), gen_lites_ckv_block(no)
   tt3.py       BlockCode.pack, ServiceCode.pack, the service codes used by read/write_without_mac
   tt2_nxp.py   NTAG21x._authenticate        gen_ntag_pw_bad, gen_ntag_key, gen_ntag_auth_cmd, gen_ntag_auth_ok
                NTAG21x._protect_with_password  gen_ntag_protect_key, gen_ntag_cfg_edit, gen_ntag_cfg_count,
@@ -99,6 +100,15 @@ class Fn20(py2coq.Fn):
                 and not e.keywords:
             a, ta = self.expr(e.args[0], env)
             return '(if %s then 1 else 0)' % self.truth(a, ta), I
+        if isinstance(e, ast.Subscript) and isinstance(e.value, ast.Call) and ast.unparse(e.value.func) in ('unpack', 'struct.unpack'):
+            c = e.value
+            if c.keywords or len(c.args) != 2 or not (isinstance(c.args[0], ast.Constant) and c.args[0].value in ('<H', '>H')) \
+                    or not (isinstance(e.slice, ast.Constant) and e.slice.value == 0 and type(e.slice.value) is int):
+                raise Unsupported('unpack form (only unpack("<H"|">H", x)[0])')
+            a, ta = self.expr(c.args[1], env)
+            if ta != B:
+                raise Unsupported('unpack of non-bytes')
+            return '(%s %s)' % ('unpack_le16' if c.args[0].value == '<H' else 'unpack_be16', a), I
         if isinstance(e, ast.IfExp) and ast.unparse(e.test).startswith('isinstance('):
             t = e.test
             if not (isinstance(t, ast.Call) and len(t.args) == 2 and isinstance(t.args[0], ast.Subscript)
@@ -468,6 +478,34 @@ def felica(repo, out):
                  [c for c in calls_of(ps, 'self.write_without_mac') if 'key' in ast.unparse(c.args[0])])
     out.append(kernel('gen_lites_protect_ck_block', wr.args[0], [('key', B)]))
     out.append(const_int('gen_lites_protect_ck_blockno', wr.args[1]))
+    # the card key version: read block 86h, increment (clamped to the 16-bit maximum), write back -
+    # before the card key is written
+    ckw = expect1('FelicaLiteS._protect: write of the card key version',
+                  [c for c in calls_of(ps, 'self.write_without_mac') if 'ckv' in ast.unparse(c.args[0])])
+    if len(ckw.args) != 2 or ckw.keywords:
+        raise Unsupported('FelicaLiteS._protect: card key version write arguments')
+    out.append(const_int('gen_lites_ckv_blockno', ckw.args[1]))
+    cks = [s_ for s_ in g.body if is_assign_to(s_, 'ckv')]
+    if not cks:
+        raise Unsupported('FelicaLiteS._protect: ckv =')
+    reads = [c for s_ in cks for c in nodes(s_, ast.Call) if ast.unparse(c.func) == 'self.read_without_mac']
+    rdc = expect1('FelicaLiteS._protect: read of the card key version', reads)
+    if len(rdc.args) != 1 or rdc.keywords or ast.unparse(rdc.args[0]) != ast.unparse(ckw.args[1]):
+        raise Unsupported('FelicaLiteS._protect: card key version is not read from the block that is written')
+    if cks[0].value is rdc:
+        # ckv = read(86h); ckv = f(ckv): the first assignment names the block, later ones compute on it
+        if len(cks) < 2:
+            raise Unsupported('FelicaLiteS._protect: card key version is not incremented')
+        rest = [copy.deepcopy(cks[1])] + [copy.deepcopy(x) for x in cks[2:]]
+        rest[0].value = Subst({'ckv': 'blk'}).visit(rest[0].value)
+    else:
+        rest = [copy.deepcopy(x) for x in cks]
+        rest[0].value = Subst({ast.unparse(rdc): 'blk'}).visit(rest[0].value)
+    wstmt = expect1('ckv write statement', [s_ for s_ in g.body if isinstance(s_, ast.Expr) and s_.value is ckw])
+    kstmt = expect1('ck write statement', [s_ for s_ in g.body if isinstance(s_, ast.Expr) and s_.value is wr])
+    if not (max(g.body.index(x) for x in cks) < g.body.index(wstmt) < g.body.index(kstmt)):
+        raise Unsupported('FelicaLiteS._protect: order of card key version / card key writes')
+    out.append(stmts_kernel('gen_lites_ckv_block', rest, ckw.args[0], [('blk', B)]))
 
     # ---- service codes of the four access methods
     for meth, nm in (('FelicaLite.read_without_mac', 'gen_sc_read'), ('FelicaLite.read_with_mac', 'gen_sc_read_mac'),
